@@ -100,3 +100,77 @@ pub fn rgb_to_hsl(r: f64, g: f64, b: f64) -> [f64; 3] {
     let h = if max == r { (g - b) / d + if g < b { 6.0 } else { 0.0 } } else if max == g { (b - r) / d + 2.0 } else { (r - g) / d + 4.0 };
     [h * 60.0, s, l]
 }
+
+/// Decode the text of a CSS colour value: a name, `transparent`, `#rgb`, `#rgba`, `#rrggbb`, `#rrggbbaa`,
+/// `rgb()`/`rgba()` (comma or space syntax, numbers or percentages) and `hsl()`/`hsla()`.
+/// Arguments are clamped as CSS prescribes.  None when the text is not one of these.
+pub fn parse_text(text: &str) -> Option<Rgba> {
+    let t = text.trim();
+    if let Some(h) = t.strip_prefix('#') {
+        return hex(h);
+    }
+    if t.bytes().all(|b| b.is_ascii_alphabetic()) {
+        return named(t);
+    }
+    let open = t.find('(')?;
+    if !t.ends_with(')') {
+        return None;
+    }
+    let name = t[..open].to_ascii_lowercase();
+    let inner = &t[open + 1..t.len() - 1];
+    // split at commas, or at spaces and `/`
+    let args: Vec<String> = if inner.contains(',') {
+        inner.split(',').map(|s| s.trim().to_string()).collect()
+    } else {
+        inner.replace('/', " ").split_whitespace().map(|s| s.to_string()).collect()
+    };
+    if args.len() != 3 && args.len() != 4 {
+        return None;
+    }
+    // (value, unit)
+    let num = |s: &str| -> Option<(f64, String)> {
+        let end = s.char_indices().find(|(i, c)| !(c.is_ascii_digit() || *c == '.' || ((*c == '-' || *c == '+') && (*i == 0 || s[..*i].ends_with('e'))) || (*c == 'e' && s[i + 1..].starts_with(|d: char| d.is_ascii_digit() || d == '-' || d == '+')))).map(|(i, _)| i).unwrap_or(s.len());
+        if end == 0 {
+            return None;
+        }
+        let v: f64 = s[..end].parse().ok()?;
+        Some((v, s[end..].to_ascii_lowercase()))
+    };
+    let alpha = match args.get(3) {
+        None => 1.0,
+        Some(a) => match num(a)? {
+            (v, u) if u.is_empty() => v.clamp(0.0, 1.0),
+            (v, u) if u == "%" => (v / 100.0).clamp(0.0, 1.0),
+            _ => return None,
+        },
+    };
+    match name.as_str() {
+        "rgb" | "rgba" => {
+            let mut out = [0.0, 0.0, 0.0, alpha];
+            for i in 0..3 {
+                out[i] = match num(&args[i])? {
+                    (v, u) if u.is_empty() => v.clamp(0.0, 255.0),
+                    (v, u) if u == "%" => (v * 2.55).clamp(0.0, 255.0),
+                    _ => return None,
+                };
+            }
+            Some(out)
+        }
+        "hsl" | "hsla" => {
+            let h = match num(&args[0])? {
+                (v, u) if u.is_empty() || u == "deg" => v,
+                (v, u) if u == "turn" => v * 360.0,
+                (v, u) if u == "grad" => v * 0.9,
+                (v, u) if u == "rad" => v.to_degrees(),
+                _ => return None,
+            };
+            let pct = |s: &str| match num(s)? {
+                (v, u) if u == "%" => Some((v / 100.0).clamp(0.0, 1.0)),
+                _ => None,
+            };
+            let rgb = hsl_to_rgb(h, pct(&args[1])?, pct(&args[2])?);
+            Some([rgb[0], rgb[1], rgb[2], alpha])
+        }
+        _ => None,
+    }
+}
